@@ -38,6 +38,7 @@ def r2(cx):
 def r3(cx):
     f = cx.f
     rule_flush_ordering(cx)
+    cleanup_bounds(cx)
     cb = f.body("Compactor::merge_tables")
     um = sites(cx, cb, "Compactor::update_manifest")
     cl = sites(cx, cb, "Compactor::cleanup_old_tables")
